@@ -265,7 +265,12 @@ func genLinReg(r *gen.R, validOnly bool) (mon.OpReq, Expect, bool) {
 		icpt = i64
 		req.Attrs = append(req.Attrs, mon.AttrFloats("intercepts", i32))
 	}
-	if t != 1 || r.Bool() {
+	tRef := t
+	if !validOnly && t >= 2 && r.Chance(0.08) {
+		// targets left out although the coefficient and intercept lists are laid out for several:
+		// the default is one target, the lists do not fit it
+		tRef = 1
+	} else if t != 1 || r.Bool() {
 		req.Attrs = append(req.Attrs, mon.AttrI("targets", int64(t)))
 	}
 	if !validOnly && r.Chance(0.08) { // coefficients that do not match the feature count
@@ -283,7 +288,7 @@ func genLinReg(r *gen.R, validOnly bool) (mon.OpReq, Expect, bool) {
 			req.Attrs[i], req.Attrs[j] = req.Attrs[j], req.Attrs[i]
 		}
 	}
-	want, err := ref.LinearRegressor(x, coef, icpt, t)
+	want, err := ref.LinearRegressor(x, coef, icpt, tRef)
 	return req, numExpect(want, err, dt, dt == ref.F32), true
 }
 
